@@ -1,5 +1,6 @@
 import DaliVerif.Model.Response
 import DaliVerif.Spec.Response
+import DaliVerif.Spec.ResponseTable
 /-!
 # Lemmas for C06: from per-class, decidable well-formedness facts to
 faithfulness on every bus outcome
@@ -297,6 +298,15 @@ theorem bitmap_holds_of_wellFormed (c : RespClass) (h : WellFormed c = true)
       refine ⟨hpi, ?_⟩
       simp only [respAttr, hex, respGetattr, hga, bitmapGetattr, hlk]
       exact bitOK_bitAt o i hi8
+
+/-- what the standard fixes about a class, read off a row of the generated table -/
+def project (c : RespClass) : Spec.Resp.Row :=
+  { key := c.module ++ ":" ++ c.name, cat := catOf c, expected := c.expected,
+    errorAcceptable := c.errorAcceptable, pinned := false, bits := c.bits, members := c.members,
+    types := c.types }
+
+/-- a row of the transcribed table without its provenance mark -/
+def unpin (r : Spec.Resp.Row) : Spec.Resp.Row := { r with pinned := false }
 
 theorem holds_of_wellFormed (c : RespClass) (h : WellFormed c = true) (o : Outcome) :
     holds c o = true := by
